@@ -1016,9 +1016,30 @@ impl<'a> P<'a> {
                 Tok::Sym(":") => {
                     self.advance();
                     let (n, _) = self.expect_field_name()?;
-                    // optional `<<T>>` instantiation on methods is not modelled separately
+                    // optional explicit type instantiation `o:m<<T>>(...)`
+                    let mut tys = None;
+                    if self.mode == Mode::Luau && self.is_sym("<") && self.peek_is_sym(1, "<") && self.toks[self.i].end == self.toks[self.i + 1].start {
+                        let start = self.pos();
+                        self.advance();
+                        self.advance();
+                        let mut list = Vec::new();
+                        if !self.is_sym(">") {
+                            loop {
+                                list.push(self.parse_type_or_pack()?);
+                                if !self.accept_sym(",") {
+                                    break;
+                                }
+                            }
+                        }
+                        if !self.accept_type_gt() || !self.accept_type_gt() {
+                            return self.err("expected `>>` to close the type instantiation");
+                        }
+                        self.census.types += 1;
+                        self.type_spans.push((start, self.prev_end()));
+                        tys = Some(list);
+                    }
                     let (args, kind) = self.parse_call_args()?;
-                    e = Expr::MethodCall(Box::new(e), n, args, kind);
+                    e = Expr::MethodCall(Box::new(e), n, args, kind, tys);
                 }
                 Tok::Sym("(") => {
                     // Lua 5.1: a `(` on a new line after a prefix expression is "ambiguous syntax"
